@@ -154,6 +154,7 @@ func runC14(c *core.Ctx) {
 
 	c.Rule("C14.coupling", "in package traversal, at every site that extends Progress.Path by a segment and then descends into a child node, the segment and the child originate together: both are results of one iterator Next(), or the child is the result of a lookup by that segment, or both are parameters that are coupled at every call site; a selector obtained from Explore for the descent was asked about that same segment", 6)
 	checkCoupling(c)
+	checkKeySegment(c)
 
 	c.Rule("C14.get", "Progress.get: LookupByString receives the String() of the current path segment and LookupByIndex the Index() of that same segment; after each lookup and each link load a non-nil error leads only to returns carrying a nil node; links are followed only through LinkSystem.Load", 5)
 	// the stepwise resolver, by role: the function behind the exported (Progress).Get that walks over Path.Segments()
@@ -215,6 +216,58 @@ func runC14(c *core.Ctx) {
 			}
 		}
 		c.Check(loads >= 1, key+"#links-through-linksystem", p.Pos(get.Pos()), "links are loaded through LinkSystem.Load", "get does not load links through LinkSystem.Load")
+		// the position reported to the link system for a link is the position recorded for the block loaded from it
+		var linkPaths, blockPaths []ssa.Value
+		core.InstrsR(get, func(in ssa.Instruction) {
+			st, ok := in.(*ssa.Store)
+			if !ok {
+				return
+			}
+			fa, ok := st.Addr.(*ssa.FieldAddr)
+			if !ok {
+				return
+			}
+			switch core.FieldName(fa) {
+			case "LinkContext.LinkPath":
+				linkPaths = append(linkPaths, st.Val)
+			}
+			if fv := fieldVar(fa); fv != nil && fv.Name() == "Path" {
+				if outer, ok := fa.X.(*ssa.FieldAddr); ok && core.FieldName(outer) == "Progress.LastBlock" {
+					blockPaths = append(blockPaths, st.Val)
+				}
+			}
+		})
+		samePath := func(a, b ssa.Value) bool {
+			ca, ok1 := rgGet.Canon(a).(*ssa.Call)
+			cb, ok2 := rgGet.Canon(b).(*ssa.Call)
+			if !ok1 || !ok2 || core.CalleeObj(ca) == nil || core.CalleeObj(cb) == nil || core.CalleeObj(ca) != core.CalleeObj(cb) || len(ca.Call.Args) != len(cb.Call.Args) {
+				return core.SameValue(a, b)
+			}
+			for i := range ca.Call.Args {
+				x, y := core.Strip(ca.Call.Args[i]), core.Strip(cb.Call.Args[i])
+				if x == y || core.SameValue(x, y) {
+					continue
+				}
+				bx, okx := x.(*ssa.BinOp)
+				by, oky := y.(*ssa.BinOp)
+				if okx && oky && bx.Op == by.Op && core.Strip(bx.X) == core.Strip(by.X) && core.ConstVal(bx.Y) != nil && core.ConstVal(by.Y) != nil && core.ConstVal(bx.Y).ExactString() == core.ConstVal(by.Y).ExactString() {
+					continue
+				}
+				return false
+			}
+			return true
+		}
+		if len(linkPaths) > 0 && len(blockPaths) > 0 {
+			agree := true
+			for _, a := range linkPaths {
+				for _, b := range blockPaths {
+					if !samePath(a, b) {
+						agree = false
+					}
+				}
+			}
+			c.Check(agree, key+"#linkpath-is-block-path", p.Pos(get.Pos()), "LinkContext.LinkPath and LastBlock.Path name the same position", "the path handed to the link system as LinkContext.LinkPath is not the path recorded as LastBlock.Path for the block loaded from that link: Get / Focus tell the link system a different position (the link's parent) than the walk does for the same link, so a link system that decides by position treats the two differently")
+		}
 	} else {
 		c.Undecided("traversal.(Progress).Get#resolver", "-", "no function behind (Progress).Get walks over Path.Segments()")
 	}
@@ -263,20 +316,22 @@ func isNodeType(t types.Type) bool {
 	return nt != nil && nt.Obj().Name() == "Node" && nt.Obj().Pkg() != nil && core.RelPkg(nt.Obj().Pkg().Path()) == "datamodel"
 }
 
+// loopCarried: a loop-carried phi holds a value of an EARLIER iteration: it does not originate with this iteration's child.
+func loopCarried(w ssa.Value) bool {
+	if phi, ok := w.(*ssa.Phi); ok {
+		for _, pr := range phi.Block().Preds {
+			if phi.Block().Dominates(pr) {
+				return true
+			}
+		}
+	}
+	return false
+}
+
 // origins collects the iterator Next() / Lookup* calls a value derives from (through conversions and helper calls).
 func origins(v ssa.Value) (nexts map[*ssa.Call]bool, lookups map[*ssa.Call]bool, params map[*ssa.Parameter]bool) {
 	nexts, lookups, params = map[*ssa.Call]bool{}, map[*ssa.Call]bool{}, map[*ssa.Parameter]bool{}
-	opts := core.SliceOpts{Stores: true, Stop: func(w ssa.Value) bool {
-		// a loop-carried phi holds a value of an EARLIER iteration: it does not originate with this iteration's child
-		if phi, ok := w.(*ssa.Phi); ok {
-			for _, pr := range phi.Block().Preds {
-				if phi.Block().Dominates(pr) {
-					return true
-				}
-			}
-		}
-		return false
-	}, ThroughCallsIf: func(cl *ssa.Call) bool {
+	opts := core.SliceOpts{Stores: true, Stop: loopCarried, ThroughCallsIf: func(cl *ssa.Call) bool {
 		if cl.Call.IsInvoke() {
 			n := cl.Call.Method.Name()
 			if n == "Next" || strings.HasPrefix(n, "Lookup") {
@@ -317,7 +372,7 @@ func coupledAt(p *core.Program, fn *ssa.Function, seg, node ssa.Value, depth int
 	nn, nl, np := origins(node)
 	_ = sl
 	if at != nil && len(nn) > 0 {
-		segSlice := core.BackSlice(seg, core.SliceOpts{Stores: true})
+		segSlice := core.BackSlice(seg, core.SliceOpts{Stores: true, Stop: loopCarried})
 		for d := at.Block(); d != nil; d = d.Idom() {
 			id := d.Idom()
 			if id == nil {
@@ -325,6 +380,10 @@ func coupledAt(p *core.Program, fn *ssa.Function, seg, node ssa.Value, depth int
 			}
 			ifi := core.BlockIf(id)
 			if ifi == nil {
+				continue
+			}
+			// a test of an error for nil relates nothing
+			if bo, ok := ifi.Cond.(*ssa.BinOp); ok && (core.IsNilConst(bo.X) || core.IsNilConst(bo.Y)) {
 				continue
 			}
 			cs := core.BackSlice(ifi.Cond, core.SliceOpts{ThroughCalls: true, Stores: true})
@@ -772,4 +831,99 @@ func sameOrigin(a, b ssa.Value) bool {
 		}
 	}
 	return false
+}
+
+// checkKeySegment: wherever the traversal packages turn a node into the string of a path segment that is reported
+// (appended to a path, or returned as a PathSegment), the node is first taken to its representation when it is typed
+// (a typed map hands out type-level keys, which for a struct key are of kind map), and a node that has no string is
+// not silently reported as the empty segment.
+func checkKeySegment(c *core.Ctx) {
+	p := c.P
+	c.Rule("C14.keysegment", "wherever package traversal or traversal/selector turns a map key into the string of a reported path segment (appended to a Path, or returned as a PathSegment), the key is taken through schema.TypedNode.Representation when it is typed, and the segment is formed only after AsString succeeded (its error tested, or the node's kind tested to be string)", 4)
+	dm := core.ModPath + "/datamodel"
+	kindString := ""
+	if kindT := p.NamedType("datamodel", "Kind"); kindT != nil {
+		if v, ok := enumConsts(kindT)["Kind_String"]; ok {
+			kindString = v.ExactString()
+		}
+	}
+	for _, fn := range p.ModFns {
+		pk := core.FuncPkg(fn)
+		if pk == nil || len(fn.Blocks) == 0 || fn.Synthetic != "" {
+			continue
+		}
+		if rel := core.RelPkg(pk.Path()); rel != "traversal" && rel != "traversal/selector" {
+			continue
+		}
+		n := 0
+		for _, ci := range core.Calls(fn) {
+			cv := core.CallValue(ci)
+			if cv == nil {
+				continue
+			}
+			var str ssa.Value
+			switch {
+			case core.IsMethod(ci, dm, "Path", "AppendSegmentString"):
+				str = core.Args(ci)[0]
+			case core.IsPkgFunc(ci, dm, "PathSegmentOfString"):
+				// reported: returned as a segment, or appended to a path
+				reported := false
+				for _, ret := range core.Returns(fn) {
+					for i, r := range ret.Results {
+						if isPathSegment(r.Type()) && core.BackSlice(ret.Results[i], core.SliceOpts{Local: true})[cv] {
+							reported = true
+						}
+					}
+				}
+				for _, cj := range core.Calls(fn) {
+					if core.IsMethod(cj, dm, "Path", "AppendSegment") && core.BackSlice(core.Args(cj)[0], core.SliceOpts{Local: true})[cv] {
+						reported = true
+					}
+				}
+				if !reported {
+					continue
+				}
+				str = cv.Call.Args[0]
+			default:
+				continue
+			}
+			for w := range core.BackSlice(str, core.SliceOpts{Local: true}) {
+				as, ok := w.(*ssa.Call)
+				if !ok || !as.Call.IsInvoke() || as.Call.Method.Name() != "AsString" || !isNodeType(as.Call.Value.Type()) {
+					continue
+				}
+				n++
+				key := fmt.Sprintf("%s#segment-of-key/%d", core.FuncKey(fn), n)
+				typed := core.AnyIn(core.BackSlice(as.Call.Value, core.SliceOpts{Local: true}), func(v ssa.Value) bool {
+					rc, ok := v.(*ssa.Call)
+					return ok && rc.Call.IsInvoke() && rc.Call.Method.Name() == "Representation" && core.IsMethod(rc, core.ModPath+"/schema", "TypedNode", "Representation")
+				})
+				c.Check(typed, key+"#typed-key-representation", p.Pos(as.Pos()), "a typed key is taken to its representation before its string is asked for", "the key's string is asked of the node as the iterator handed it out: a typed map with struct keys (string representation) hands out keys of kind map, whose AsString fails - the entry is reported under a segment that does not address it")
+				okEdges := core.EdgesWhere(fn, func(r core.Rel) bool {
+					if r.Op != token.EQL {
+						return false
+					}
+					if extractOfLocal(r.X, as, 1) && core.IsNilConst(r.Y) {
+						return true
+					}
+					kc, ok := core.Strip(r.X).(*ssa.Call)
+					if ok && kc.Call.IsInvoke() && kc.Call.Method.Name() == "Kind" && core.SameValue(kc.Call.Value, as.Call.Value) {
+						kc, isK := core.Strip(r.Y).(*ssa.Const)
+						return isK && kc.Value != nil && kindString != "" && kc.Value.ExactString() == kindString
+					}
+					return false
+				})
+				guarded := false
+				if len(okEdges) > 0 {
+					// the segment is formed only beyond such an edge
+					for e := range okEdges {
+						if core.EdgeDominates(e, cv.Block()) {
+							guarded = true
+						}
+					}
+				}
+				c.Check(guarded, key+"#string-obtained", p.Pos(cv.Pos()), "the segment is formed only where AsString succeeded", "the segment is formed from the result of AsString whether or not it failed: a key that has no string is reported as the empty segment, which addresses nothing (or another entry)")
+			}
+		}
+	}
 }
